@@ -48,3 +48,107 @@ Example C04_nonvacuous :
   | None => False
   end.
 Proof. vm_compute. reflexivity. Qed.
+
+(* ---- totality of Apply over ALL inputs (Totality.v) ----
+   Every options record (any o_neg, o_limit, o_allow, o_ensure, o_esc, o_stale, o_nullsz), every
+   indent, every document byte string, every operation list with arbitrary op names, path/from
+   bytes (empty tokens, non-canonical or huge indices, "-") and missing members, provided only
+   that an add / replace aimed at the whole document (path "") has a value member (op_ok).
+   DecodePatch guarantees op_ok; a hand-assembled operation without it does panic
+   (C04_unvalidated_add_panics), so the hypothesis cannot be dropped. *)
+From JP Require Import Totality.
+
+Theorem C04_apply_never_panics : forall o indent p doc,
+  forallb op_ok p = true -> api_apply o indent p doc <> RPanic.
+Proof. exact api_apply_never_panics. Qed.
+Print Assumptions C04_apply_never_panics.
+
+(* DecodePatch followed by Apply / ApplyIndent / ApplyWithOptions: all byte strings on both sides *)
+Theorem C04_decode_then_apply_never_panics : forall o indent patch doc p,
+  api_decode patch = Some p -> api_apply o indent p doc <> RPanic.
+Proof. exact decode_apply_never_panics. Qed.
+Print Assumptions C04_decode_then_apply_never_panics.
+
+(* op_ok is exactly the panic condition of a single operation, in every state *)
+Theorem C04_unvalidated_add_panics : forall o st op, op_ok op = false -> step o st op = Panic.
+Proof. exact op_not_ok_panics. Qed.
+Print Assumptions C04_unvalidated_add_panics.
+
+Example C04_apply_nonvacuous :
+  (* duplicate names in the document, the same member removed until it is gone, then once more *)
+  match api_decode (B "[{""op"":""remove"",""path"":""/a""},{""op"":""remove"",""path"":""/a""}]") with
+  | Some p => api_apply (mkOpts true 0 false false true [] None) [] p (B "{""a"":1,""a"":2}") = RErr (Some 1%nat) EMissing
+  | None => False
+  end
+  /\ api_apply (mkOpts false 0 false false true [] None) []
+       [[(B "op", Some (TStr (B "add"))); (B "path", Some (TStr []))]] (B "{}") = RPanic.
+Proof. vm_compute. split; reflexivity. Qed.
+
+(* ---- the legacy root package (TotalityV4.v, model ImplV4.v) ----
+   FINDING: the legacy DecodePatch validates nothing, and the patch  [{"op":"replace","path":""}]
+   (replace of the whole document without value), which it accepts, panics on every document that
+   loads: Patch.replace dereferences the nil *lazyNode returned by op.value().
+   op_ok4 (a replace with path "" has a value member) is exactly the condition under which a
+   legacy operation does not panic, in every state and for every setting of the package variables
+   SupportNegativeIndices / AccumulatedCopySizeLimit; under it Apply / ApplyIndent never panic, for
+   every document byte string, every indent and arbitrary op names, path / from bytes and missing
+   or null members.  Unlike v5 the hypothesis is NOT discharged by DecodePatch
+   (C04_legacy_decoded_patch_can_panic). *)
+From JP Require Import ImplV4 TotalityV4.
+
+Theorem C04_legacy_apply_never_panics : forall g indent p doc,
+  forallb op_ok4 p = true -> api_apply4 g indent p doc <> Panic4.
+Proof. exact api_apply4_never_panics. Qed.
+Print Assumptions C04_legacy_apply_never_panics.
+
+(* op_ok4 is exactly the panic condition of a single legacy operation, in every state *)
+Theorem C04_legacy_step_panics_iff : forall g st op, step4 g st op = Panic <-> op_ok4 op = false.
+Proof. exact step4_panics_iff. Qed.
+Print Assumptions C04_legacy_step_panics_iff.
+
+Theorem C04_legacy_unvalidated_replace_panics : forall g st op, op_ok4 op = false -> step4 g st op = Panic.
+Proof. exact op_not_ok4_panics. Qed.
+Print Assumptions C04_legacy_unvalidated_replace_panics.
+
+(* a panic of the legacy Apply always comes from a replace of the whole document without value *)
+Theorem C04_legacy_panic_cause : forall g indent p doc,
+  api_apply4 g indent p doc = Panic4 ->
+  exists op, In op p /\ op_kind op = KReplace /\ op_str op (B "path") = Ok [] /\ aget (B "value") op = None.
+Proof. exact api_apply4_panic_inv. Qed.
+Print Assumptions C04_legacy_panic_cause.
+
+(* if the operations before a not-ok operation succeed, the legacy Apply panics *)
+Theorem C04_legacy_apply_panics_on_not_ok : forall g indent pre op rest doc t st' j,
+  doc <> [] -> parse doc = Some t -> loads4 t = true ->
+  (forall c, apply4_from g 0 (mkState4 c 0) pre = (Ok (st' c), j)) ->
+  op_ok4 op = false ->
+  api_apply4 g indent (pre ++ op :: rest) doc = Panic4.
+Proof. exact api_apply4_panics_on_not_ok. Qed.
+Print Assumptions C04_legacy_apply_panics_on_not_ok.
+
+(* the legacy DecodePatch accepts a patch that panics on every document that loads *)
+Theorem C04_legacy_decoded_patch_can_panic : forall g indent doc t,
+  doc <> [] -> parse doc = Some t -> loads4 t = true ->
+  exists p, api_decode4 (B "[{""op"":""replace"",""path"":""""}]") = Some p /\ api_apply4 g indent p doc = Panic4.
+Proof. exact decoded_patch_can_panic. Qed.
+Print Assumptions C04_legacy_decoded_patch_can_panic.
+
+Example C04_legacy_nonvacuous :
+  (* the counterexample, with the default package variables; the v5 DecodePatch rejects it *)
+  match api_decode4 (B "[{""op"":""replace"",""path"":""""}]") with
+  | Some p => api_apply4 (mkOpts4 true 0 None) [] p (B "{}") = Panic4
+              /\ api_apply4 (mkOpts4 true 0 None) [] p (B "null") = Panic4
+              /\ forallb op_ok4 p = false
+  | None => False
+  end
+  /\ api_decode (B "[{""op"":""replace"",""path"":""""}]") = None
+  (* unvalidated operations that satisfy op_ok4: error or output, no panic *)
+  /\ match api_decode4 (B "[{""op"":""add"",""path"":""""},{""op"":""replace"",""path"":""""}]") with
+     | Some p => api_apply4 (mkOpts4 true 0 None) [] p (B "[]") = Err4 (Some 0%nat) EMissing
+     | None => False
+     end
+  /\ match api_decode4 (B "[{""op"":""replace"",""path"":""/a""},{""op"":""copy"",""path"":""/b""}]") with
+     | Some p => forallb op_ok4 p = true /\ api_apply4 (mkOpts4 true 0 None) [] p (B "{""a"":1}") = Err4 (Some 1%nat) EMissing
+     | None => False
+     end.
+Proof. vm_compute. repeat split; reflexivity. Qed.
